@@ -21,12 +21,15 @@ IN_DOMAIN = {
             ('bool', True), ('boolf', False), ('sci', 1.25e-12), ('big', 1e22), ('dotted', 'v1.2.3'), ('ключ', 'значение'),
             ('posexp', 2.5e+17), ('negposexp', -6.71e+18), ('exp16', 1e16),
             ('cation', 'Na'), ('upper_na', 'NA'), ('word_null', 'null'), ('slash', 'n/a'), ('yes', 'yes'), ('word_t', 'T'),
-            ('reduced_with_pygaps_release', 'four'), ('x_model_param_y', 'z'), ('my_sample_id', 'S1'), ('_exptl_note', 'n')],
+            ('reduced_with_pygaps_release', 'four'), ('x_model_param_y', 'z'), ('my_sample_id', 'S1'), ('_exptl_note', 'n'),
+            # whole numbers a double cannot hold: 2**53 + 1, a nanosecond time stamp, a 17-digit identifier, a number beyond 64 bits
+            ('int53', 2 ** 53 + 1), ('t_ns', 1696334400123456789), ('id17', 20210402123456789), ('int70', 10 ** 21 + 7)],
     'aif': [('plain', 'hello'), ('unicode', 'Üñí-µm'), ('spaced', 'hello world'), ('int', 5), ('zero', 0), ('float', 5.5), ('negfloat', -2.25),
             ('bool', True), ('boolf', False), ('sci', 1.25e-12), ('big', 1e22), ('dotted', 'v1.2.3'),
             ('posexp', 2.5e+17), ('negposexp', -6.71e+18), ('exp16', 1e16),
             ('cation', 'Na'), ('upper_na', 'NA'), ('word_null', 'null'), ('slash', 'n/a'), ('yes', 'yes'), ('word_t', 'T'),
-            ('reduced_with_pygaps_release', 'four'), ('x_model_param_y', 'z'), ('my_sample_id', 'S1'), ('_pygaps_inside_pygaps_', 'v'), ('material_batch', 'b7'), ('adsorbate_purity', 'n5')],
+            ('reduced_with_pygaps_release', 'four'), ('x_model_param_y', 'z'), ('my_sample_id', 'S1'), ('_pygaps_inside_pygaps_', 'v'), ('material_batch', 'b7'), ('adsorbate_purity', 'n5'),
+            ('int53', 2 ** 53 + 1), ('t_ns', 1696334400123456789), ('id17', 20210402123456789), ('int70', 10 ** 21 + 7)],
     'xls': [('plain', 'hello'), ('unicode', 'Üñí-µm'), ('spaced', 'hello, world; "quoted"'), ('float', 5.5), ('negfloat', -2.25), ('intf', 5.0),
             ('bool', True), ('boolf', False), ('sci', 1.25e-12), ('text_int', '5'), ('text_true', 'true'), ('key with blank', 'v'),
             ('posexp', 2.5e+17), ('negposexp', -6.71e+18),
